@@ -242,7 +242,7 @@ class Normalize(Command):
         arr_min = arr.min()
         arr_max = arr.max()
 
-        return (arr - arr_min) * (start - end) / (arr_min - arr_max) + start
+        return (arr - arr_min) * (end - start) / (arr_max - arr_min) + start
 
 
 class NormalizeZScore(Command):
